@@ -4,7 +4,7 @@
 (* value in agreement.                                                     *)
 (* State: links (set of <<parent, target>>), alive (targets that exist),   *)
 (* next (key the next new target receives).  kind in has_many has_one      *)
-(* belongs_to many2many poly.  An operation is                             *)
+(* belongs_to many2many poly polyone. An operation is                            *)
 (*   [op |-> "append"|"replace"|"delete"|"clear", p |-> parent,            *)
 (*    ts |-> sequence of target ids, 0 standing for a new (unsaved) one]   *)
 (* Step is shared by the exhaustive exploration and by trace validation.   *)
@@ -13,8 +13,12 @@ EXTENDS Integers, Sequences, FiniteSets, TLC
 
 ToSet(s) == {s[i] : i \in DOMAIN s}
 Of(links, p) == {l[2] : l \in {x \in links : x[1] = p}}
-Functional(kind) == kind \in {"has_one", "belongs_to"}        \* a parent has at most one target
-Exclusive(kind)  == kind \in {"has_many", "has_one", "poly"}  \* a target has at most one parent (the link is its foreign key)
+Functional(kind) == kind \in {"has_one", "belongs_to", "polyone"}        \* a parent has at most one target
+Exclusive(kind)  == kind \in {"has_many", "has_one", "poly", "polyone"}  \* a target has at most one parent (the link is its foreign key)
+Parents == {1, 2}
+\* p = 0: the operation is issued on the slice of all parents (Delete); Count/Find are then read on parent 1
+PSet(a) == IF a.p = 0 THEN Parents ELSE {a.p}
+QP(a) == IF a.p = 0 THEN 1 ELSE a.p
 
 \* resolve the 0 entries of ts to fresh keys next, next+1, ...
 RECURSIVE Resolve(_, _)
@@ -32,7 +36,7 @@ Step(st, a, kind) ==
         CASE a.op = "append" -> IF Functional(kind) THEN (IF T = {} THEN st.links ELSE ((st.links \ mine) \ steal) \cup add)
                                 ELSE (st.links \ steal) \cup add
           [] a.op = "replace" -> ((st.links \ mine) \ steal) \cup add
-          [] a.op = "delete"  -> st.links \ add
+          [] a.op = "delete"  -> st.links \ {<<p, t>> : p \in PSet(a), t \in T}
           [] OTHER            -> st.links \ mine                      \* clear
   IN [links |-> links2, alive |-> IF a.op \in {"append", "replace"} THEN st.alive \cup T ELSE st.alive,   \* saving a target (re)creates it
       next |-> st.next + NewCount(a.ts),
@@ -42,9 +46,10 @@ Step(st, a, kind) ==
 ObsOK(st, a, o, kind, unscoped, single) ==
   /\ o.err = "nil"
   /\ ToSet(o.links) = st.links /\ Len(o.links) = Cardinality(st.links)       \* stored links are exactly those defined
-  /\ o.count = Cardinality(Of(st.links, a.p))                                \* Count
-  /\ ToSet(o.found) = Of(st.links, a.p) /\ Len(o.found) = o.count            \* Find
-  /\ (single => ToSet(o.mem) = Of(st.links, a.p))                            \* distinct records in the in-memory field
+  /\ o.count = Cardinality(Of(st.links, QP(a)))                              \* Count
+  /\ ToSet(o.found) = Of(st.links, QP(a)) /\ Len(o.found) = o.count          \* Find
+  /\ (single => ToSet(o.mem) = Of(st.links, QP(a)))                          \* distinct records in the in-memory field
+  /\ \A i \in DOMAIN o.mems : ToSet(o.mems[i].mem) = Of(st.links, o.mems[i].p) \* ... of every record the operation was issued on
   /\ IF unscoped THEN (st.alive \ st.removed) \subseteq ToSet(o.alive)       \* only removed targets may be deleted
      ELSE ToSet(o.alive) = st.alive                                          \* associated records survive
 
@@ -61,12 +66,11 @@ RunFrom(st, ops, i, kind, unscoped, single) ==
 (* existing targets; shape invariants of the link set per relation kind.   *)
 (***************************************************************************)
 CONSTANTS Kind, MaxOps
-Parents == {1, 2}
 Existing == {1, 2, 3}
 ArgSets == {<<>>, <<1>>, <<2>>, <<3>>, <<0>>, <<1, 2>>, <<2, 0>>, <<3, 1>>, <<2, 2>>}
 Ops == {[op |-> o, p |-> p, ts |-> ts] : o \in {"append", "replace"}, p \in Parents,
                                         ts \in (IF Functional(Kind) THEN {x \in ArgSets : Len(x) = 1} ELSE ArgSets)}
-       \cup {[op |-> "delete", p |-> p, ts |-> ts] : p \in Parents, ts \in {x \in ArgSets : Len(x) >= 1 /\ \A i \in DOMAIN x : x[i] # 0}}
+       \cup {[op |-> "delete", p |-> p, ts |-> ts] : p \in Parents \cup {0}, ts \in {x \in ArgSets : Len(x) >= 1 /\ \A i \in DOMAIN x : x[i] # 0}}
        \cup {[op |-> "clear", p |-> p, ts |-> <<>>] : p \in Parents}
 InitSt == [links |-> IF Functional(Kind) THEN {<<1, 1>>} ELSE {<<1, 1>>, <<1, 2>>}, alive |-> Existing, next |-> 4, removed |-> {}]
 VARIABLES st, hist
@@ -79,7 +83,7 @@ ShapeOK == /\ (Functional(Kind) => \A p \in Parents : Cardinality(Of(st.links, p
            /\ \A l \in st.links : l[2] \in st.alive
 \* the last operation did what its name says for its own parent
 LastOpOK == hist = <<>> \/
-  LET a == hist[Len(hist)]  T == Of(st.links, a.p) IN
+  LET a == hist[Len(hist)]  T == UNION {Of(st.links, p) : p \in PSet(a)} IN
   CASE a.op = "clear"   -> T = {}
     [] a.op = "replace" -> Cardinality(T) <= Len(a.ts) /\ \A i \in DOMAIN a.ts : a.ts[i] # 0 => a.ts[i] \in T
     [] a.op = "delete"  -> T \cap ToSet(a.ts) = {}
